@@ -173,6 +173,25 @@ theorem C15_posterior_joint_partial {α : Type} (vars : List (PostVar α)) (i nC
   · intro v hv
     exact keptAll_isSome vars i _ hmem.2 v hv _ (by rw [hC v hv]; exact hmem.1)
 
+/-- The repaired selection (every variable transposed to `(chain, draw, …)` before flattening): the
+    same conclusion without any assumption on the variables' own dimension orders. -/
+theorem C15_posterior_joint {α : Type} (vars : List (PostVar α)) (i nC nD : Nat)
+    (hC : ∀ v ∈ vars, v.nChains = nC) (hD : ∀ v ∈ vars, v.nDraws = nD)
+    (cols : List (List (Option α))) (hok : posteriorColumns (vars.map PostVar.canonical) i = some cols)
+    (idx : Nat) (hidx : idx < nC * (keptAll (vars.map PostVar.canonical) i).length) :
+    ∃ c d, c < nC ∧ d ∈ keptAll (vars.map PostVar.canonical) i ∧
+      posteriorRow cols idx = vars.map (fun v => v.sel i c d) ∧
+      ∀ v ∈ vars, (v.sel i c d).isSome = true := by
+  obtain ⟨c, d, hc, hd, hrow, hsome⟩ := C15_posterior_joint_partial (vars.map PostVar.canonical) i nC nD false
+    (by intro v hv; obtain ⟨u, hu, rfl⟩ := List.mem_map.mp hv; exact hC u hu)
+    (by intro v hv; obtain ⟨u, hu, rfl⟩ := List.mem_map.mp hv; exact hD u hu)
+    (by intro v hv; obtain ⟨u, hu, rfl⟩ := List.mem_map.mp hv; rfl)
+    cols hok idx hidx
+  refine ⟨c, d, hc, hd, ?_, ?_⟩
+  · rw [hrow, List.map_map]; rfl
+  · intro v hv
+    exact hsome v.canonical (List.mem_map.mpr ⟨v, hv, rfl⟩)
+
 /-- The code as it is on a dataset whose variables have different dimension orders (2 chains, 3
     draws, `psi0` stored as `(chain, draw)`, `psi1` as `(draw, chain)`): matrix row 2 pairs `psi0` of
     chain 0, draw 2 with `psi1` of chain 0, draw 1 — no `(chain, draw)` position of the posterior. -/
